@@ -335,7 +335,7 @@ def _rebalance(t, i, comm):
 
 
 FAULTS = ["unbalanced", "zero_posting", "mixed_comm", "price_same_comm", "neg_unit_price", "total_sign",
-          "implicit_zero", "opening_only", "neg_opening", "dup_tags", "bad_geo"]
+          "implicit_zero", "opening_only", "neg_opening", "dup_tags", "bad_geo", "written_cancel"]
 
 
 def inject_fault(rng, t, comms, kind=None):
@@ -345,6 +345,20 @@ def inject_fault(rng, t, comms, kind=None):
     if kind == "unbalanced":
         t["last"] = None
         p[0]["amount"] = fmt_dec(D(p[0]["amount"]) + D("0.01"))
+    elif kind == "written_cancel":
+        # the *written* amounts cancel, the values in the transaction commodity do not: `10 ACME @ 2 EUR` / `-10 EUR`
+        # (balance is a matter of the values after '@' / '=', whatever the number of postings)
+        a, b = rng.sample(comms, 2) if len(comms) > 1 else (comms[0], "ZZZ")
+        x = rng.choice(["10", "2.5", "0.01", "1200"])
+        if rng.random() < 0.6:
+            cl = {"k": "@", "v": rng.choice(["2", "0.5", "120", "1.01"]), "c": b}
+        else:
+            cl = {"k": "=", "v": fmt_dec(D(x) * D(rng.choice(["2", "3", "0.5"]))), "c": b}
+        t["posts"] = [{"acct": p[0]["acct"], "amount": x, "unit": {"comm": a, "opening": None, "closing": cl}, "comment": None},
+                      {"acct": p[0]["acct"] + ":c", "amount": "-" + x, "unit": {"comm": b, "opening": None, "closing": None}, "comment": None}]
+        if rng.random() < 0.3:
+            t["posts"].reverse()
+        t["last"] = None
     elif kind == "zero_posting":
         i = rng.randrange(len(p))
         p[i]["amount"] = rng.choice(["0", "0.00", "-0", "-0.0"])
@@ -789,3 +803,20 @@ def parse_balgrp_report(text, title="BALANCE GROUP"):
         else:
             cur["rows"].append(("?", ln, "?", "?"))
     return groups
+
+
+def gen_large_journal(rng, n, accounts=("e:x", "e:y", "e:x:deep"), counter="a:cash", comm=None, step=3600):
+    """`n` simple transactions (one explicit posting + an amount-less last posting), one per `step` seconds from
+    2024-01-01T00:00:00Z: journals larger than any plausible batch / block size of an implementation"""
+    import datetime
+    base = civil_to_ns(2024, 1, 1, 0, 0, 0, 0, 0)
+    unit = {"comm": comm, "opening": None, "closing": None} if comm else None
+    txns = []
+    for i in range(n):
+        ns = base + i * step * 10 ** 9
+        dt = EPOCH + datetime.timedelta(seconds=ns // 10 ** 9)
+        txns.append({"ts": {"ns": str(ns), "off": 0, "text": dt.strftime("%Y-%m-%dT%H:%M:%SZ")}, "code": "#%05d" % i,
+                     "desc": rng.choice(["a", "b", "c"]), "uuid": None, "loc": None, "tags": None, "comments": None,
+                     "posts": [{"acct": rng.choice(list(accounts)), "amount": "%d.%02d" % (1 + i % 7, i % 100), "unit": unit, "comment": None}],
+                     "last": {"acct": counter, "comment": None}})
+    return txns
